@@ -1,6 +1,6 @@
 import AslModel.Date
 /-! Helper lemmas for C19 (core Lean only): the regenerated `yearFromDay` brackets the day in its year. -/
-open Gen.Date
+open Gen.Date AslModel.Date
 
 namespace AslProofs.Date
 
@@ -167,5 +167,229 @@ theorem year_bracket (day n : Int) (hdn : n = day + 719528) (hn : 0 ≤ n) :
         have f4 : (400 * q + 100 * c + 4 * b + e + 1 + 399) / 400 = q + 1 := by omega
         rw [f1, f2, f3, f4]
         rcases hc with rfl | rfl | rfl | rfl <;> rcases he with rfl | rfl | rfl | rfl <;> omega
+
+theorem start_succ_bounds (y : Int) : start y + 365 ≤ start (y + 1) ∧ start (y + 1) ≤ start y + 366 := by
+  unfold start; omega
+
+theorem start_add_nat (y : Int) (k : Nat) : start y + k ≤ start (y + k) := by
+  induction k with
+  | zero => simp
+  | succ k ih =>
+    have := (start_succ_bounds (y + k)).1
+    have e : y + ((k + 1 : Nat) : Int) = y + k + 1 := by omega
+    rw [e]; omega
+
+theorem start_strict_mono {y z : Int} (h : y < z) : start y < start z := by
+  have := start_add_nat y (z - y).toNat
+  have e : y + ((z - y).toNat : Int) = z := by omega
+  rw [e] at this; omega
+
+/-- the year bracket determines the year -/
+theorem bracket_unique {y z n : Int} (hy : start y ≤ n ∧ n < start (y + 1)) (hz : start z ≤ n ∧ n < start (z + 1)) : y = z := by
+  rcases Int.lt_trichotomy y z with h | h | h
+  · have : start (y + 1) ≤ start z := by
+      by_cases e : y + 1 = z
+      · rw [e]; exact Int.le_refl _
+      · exact Int.le_of_lt (start_strict_mono (by omega))
+    omega
+  · exact h
+  · have : start (z + 1) ≤ start y := by
+      by_cases e : z + 1 = y
+      · rw [e]; exact Int.le_refl _
+      · exact Int.le_of_lt (start_strict_mono (by omega))
+    omega
+
+theorem tfy_eq_start (y : Int) : timeFromYearAsDays y + 719528 = start y := by
+  unfold timeFromYearAsDays start; omega
+
+theorem daysInYear_eq (y : Int) (hy : 0 ≤ y) : daysInYear y = start (y + 1) - start y := by
+  unfold daysInYear start
+  simp only [Int.tmod_eq_emod_of_nonneg hy]
+  split <;> omega
+
+/-! ## the month search and the cumulative table -/
+
+def monthOk (leap : Bool) (yd : Nat) : Bool :=
+  let m := monthOf leap yd
+  decide (1 ≤ m) && decide (m ≤ 12) && decide (mdays leap m.toNat ≤ yd) && decide ((yd : Int) < mdays leap (m.toNat + 1))
+
+theorem monthOk_all : ∀ yd : Fin 366, (monthOk true yd.val = true) ∧ (yd.val < 365 → monthOk false yd.val = true) := by
+  decide +kernel
+
+theorem monthOf_spec (leap : Bool) (yd : Int) (h0 : 0 ≤ yd) (h1 : yd < (if leap then 366 else 365)) :
+    1 ≤ monthOf leap yd ∧ monthOf leap yd ≤ 12 ∧ mdays leap (monthOf leap yd).toNat ≤ yd ∧
+      yd < mdays leap ((monthOf leap yd).toNat + 1) := by
+  obtain ⟨k, rfl⟩ : ∃ k : Nat, yd = k := ⟨yd.toNat, by omega⟩
+  have hk : k < 366 := by
+    cases leap
+    · have : (k : Int) < 365 := by simpa using h1
+      omega
+    · have : (k : Int) < 366 := by simpa using h1
+      omega
+  have := monthOk_all ⟨k, hk⟩
+  cases leap
+  · have h := this.2 (by have : (k : Int) < 365 := by simpa using h1
+                         show k < 365; omega)
+    simp only [monthOk, Bool.and_eq_true, decide_eq_true_eq] at h
+    exact ⟨h.1.1.1, h.1.1.2, h.1.2, h.2⟩
+  · have h := this.1
+    simp only [monthOk, Bool.and_eq_true, decide_eq_true_eq] at h
+    exact ⟨h.1.1.1, h.1.1.2, h.1.2, h.2⟩
+
+theorem mdays_mono : ∀ leap : Bool, ∀ i j : Fin 14, 1 ≤ i.val → i.val ≤ j.val → mdays leap i.val ≤ mdays leap j.val := by
+  decide +kernel
+
+theorem mdays_step : ∀ leap : Bool, ∀ i : Fin 13, 1 ≤ i.val →
+    28 ≤ mdays leap (i.val + 1) - mdays leap i.val ∧ mdays leap (i.val + 1) - mdays leap i.val ≤ 31 := by
+  decide +kernel
+
+theorem mdays_last (leap : Bool) : mdays leap 13 = if leap then 366 else 365 := by cases leap <;> rfl
+theorem mdays_first (leap : Bool) : mdays leap 1 = 0 := by cases leap <;> rfl
+
+/-- the month is determined by the interval of the table that contains the day of the year -/
+theorem month_unique (leap : Bool) (yd a b : Int) (ha : 1 ≤ a ∧ a ≤ 12) (hb : 1 ≤ b ∧ b ≤ 12)
+    (h1 : mdays leap a.toNat ≤ yd ∧ yd < mdays leap (a.toNat + 1))
+    (h2 : mdays leap b.toNat ≤ yd ∧ yd < mdays leap (b.toNat + 1)) : a = b := by
+  rcases Int.lt_trichotomy a b with h | h | h
+  · have := mdays_mono leap ⟨a.toNat + 1, by omega⟩ ⟨b.toNat, by omega⟩ (by simp) (by simp; omega)
+    simp at this; omega
+  · exact h
+  · have := mdays_mono leap ⟨b.toNat + 1, by omega⟩ ⟨a.toNat, by omega⟩ (by simp) (by simp; omega)
+    simp at this; omega
+
+theorem wrap32_id (x : Int) (h : -2147483648 ≤ x ∧ x < 2147483648) : wrap32 x = x := by
+  unfold wrap32; omega
+
+theorem construct_of_valid (y m d h mi s : Int) (hm : 1 ≤ m ∧ m ≤ 12) (hd : 0 ≤ d ∧ d ≤ 31) (hy : -100000 ≤ y)
+    (hh : 0 ≤ h ∧ h < 24) (hmi : 0 ≤ mi ∧ mi < 60) (hs : 0 ≤ s ∧ s < 60) :
+    construct y m d h mi s =
+      some (((timeFromYearAsDays y + mdays (isLeap y) m.toNat + d - 1) * 86400 + (h * 3600 + mi * 60 + s)) * 1000) := by
+  unfold construct
+  rw [if_neg (by omega)]
+  simp only [wrap32_id (h * 3600) (by omega), wrap32_id (mi * 60) (by omega), wrap32_id (h * 3600 + mi * 60) (by omega),
+    wrap32_id (h * 3600 + mi * 60 + s) (by omega)]
+
+theorem start_zero : start 0 = 0 := by decide
+
+theorem year_nonneg_of_bracket {y n : Int} (hn : 0 ≤ n) (h : n < start (y + 1)) : 0 ≤ y := by
+  false_or_by_contra
+  have : y + 1 ≤ 0 := by omega
+  have h2 : start (y + 1) ≤ start 0 := by
+    by_cases e : y + 1 = 0
+    · rw [e]; exact Int.le_refl _
+    · exact Int.le_of_lt (start_strict_mono (by omega))
+  rw [start_zero] at h2; omega
+
+theorem daysInYear_cases (y : Int) : daysInYear y = 365 ∨ daysInYear y = 366 := by
+  unfold daysInYear; split <;> simp
+
+/-- facts about the fields computed by `calcF` for an instant on or after 0000-01-01 -/
+theorem calcF_facts (t day : Int) (hday : day = t / 1000 / 86400) (hr : 0 ≤ day + 719528) :
+    0 ≤ (calcF t).year ∧ 1 ≤ (calcF t).month ∧ (calcF t).month ≤ 12 ∧ 1 ≤ (calcF t).day ∧
+    (calcF t).day ≤ mdays (isLeap (calcF t).year) ((calcF t).month.toNat + 1) - mdays (isLeap (calcF t).year) (calcF t).month.toNat ∧
+    timeFromYearAsDays (calcF t).year + mdays (isLeap (calcF t).year) (calcF t).month.toNat + ((calcF t).day - 1) = day ∧
+    0 ≤ (calcF t).hours ∧ (calcF t).hours < 24 ∧ 0 ≤ (calcF t).minutes ∧ (calcF t).minutes < 60 ∧
+    0 ≤ (calcF t).seconds ∧ (calcF t).seconds < 60 ∧
+    (calcF t).hours * 3600 + (calcF t).minutes * 60 + (calcF t).seconds = t / 1000 % 86400 := by
+  have hb := year_bracket day (day + 719528) rfl hr
+  have hy0 : 0 ≤ yearFromDay day := year_nonneg_of_bracket hr hb.2
+  have hlen := daysInYear_eq (yearFromDay day) hy0
+  have htf := tfy_eq_start (yearFromDay day)
+  generalize hY : yearFromDay day = Y at *
+  generalize hT : timeFromYearAsDays Y = T at *
+  have hyd0 : 0 ≤ day - T := by omega
+  have hyd1 : day - T < (if isLeap Y then 366 else 365) := by
+    unfold isLeap
+    rcases daysInYear_cases Y with h | h <;> rw [h] at hlen ⊢ <;> simp <;> omega
+  have hm := monthOf_spec (isLeap Y) _ hyd0 hyd1
+  generalize hM : monthOf (isLeap Y) (day - T) = M at *
+  generalize hA : mdays (isLeap Y) M.toNat = A at *
+  generalize hB : mdays (isLeap Y) (M.toNat + 1) = B at *
+  generalize hS : t / 1000 % 86400 = S
+  have hS0 : 0 ≤ S ∧ S < 86400 := by omega
+  have hc : calcF t = Fields.mk Y M (day - T - A + 1) (S / 3600) (S % 3600 / 60) (S % 60)
+      (if Int.tmod (day - 3) 7 < 0 then Int.tmod (day - 3) 7 + 7 else Int.tmod (day - 3) 7) := by
+    simp only [calcF, ← hday, hY, hT, hM, hA, hS]
+  rw [hc]
+  simp only [hA, hB]
+  omega
+
+theorem weekday_spec (t day : Int) (hday : day = t / 1000 / 86400) : (calcF t).weekDay = (day + 4) % 7 := by
+  have hw : (calcF t).weekDay = (if Int.tmod (day - 3) 7 < 0 then Int.tmod (day - 3) 7 + 7 else Int.tmod (day - 3) 7) := by
+    simp only [calcF, ← hday]
+  rw [hw]
+  by_cases h : 0 ≤ day - 3
+  · rw [Int.tmod_eq_emod_of_nonneg h]; split <;> omega
+  · have e : Int.tmod (day - 3) 7 = - (Int.tmod (-(day - 3)) 7) := by rw [Int.neg_tmod]; omega
+    rw [e, Int.tmod_eq_emod_of_nonneg (by omega)]; split <;> omega
+
+theorem construct_calc (t day : Int) (hday : day = t / 1000 / 86400) (hr : 0 ≤ day + 719528) :
+    constructF (calcF t) = some (t - t % 1000) := by
+  obtain ⟨hy, hm1, hm2, hd1, hd2, hdn, hh1, hh2, hmi1, hmi2, hs1, hs2, hsum⟩ := calcF_facts t day hday hr
+  have hst := mdays_step (isLeap (calcF t).year) ⟨(calcF t).month.toNat, by omega⟩ (by simp; omega)
+  simp only at hst
+  unfold constructF
+  rw [construct_of_valid _ _ _ _ _ _ ⟨hm1, hm2⟩ ⟨by omega, by omega⟩ (by omega) ⟨hh1, hh2⟩ ⟨hmi1, hmi2⟩ ⟨hs1, hs2⟩]
+  congr 1
+  omega
+
+theorem calc_construct (y m d h mi s : Int) (hy : 0 ≤ y) (hm : 1 ≤ m ∧ m ≤ 12)
+    (hd : 1 ≤ d ∧ d ≤ mdays (isLeap y) (m.toNat + 1) - mdays (isLeap y) m.toNat)
+    (hh : 0 ≤ h ∧ h < 24) (hmi : 0 ≤ mi ∧ mi < 60) (hs : 0 ≤ s ∧ s < 60) :
+    ∃ t, construct y m d h mi s = some t ∧ t % 1000 = 0 ∧
+      t / 1000 / 86400 = timeFromYearAsDays y + mdays (isLeap y) m.toNat + (d - 1) ∧
+      calcF t = Fields.mk y m d h mi s ((timeFromYearAsDays y + mdays (isLeap y) m.toNat + (d - 1) + 4) % 7) := by
+  have hst := mdays_step (isLeap y) ⟨m.toNat, by omega⟩ (by simp; omega)
+  simp only at hst
+  refine ⟨_, construct_of_valid y m d h mi s hm ⟨by omega, by omega⟩ (by omega) hh hmi hs, by omega, by omega, ?_⟩
+  generalize hA : mdays (isLeap y) m.toNat = A at *
+  generalize hB : mdays (isLeap y) (m.toNat + 1) = B at *
+  generalize ht : ((timeFromYearAsDays y + A + d - 1) * 86400 + (h * 3600 + mi * 60 + s)) * 1000 = t
+  have hday : timeFromYearAsDays y + A + (d - 1) = t / 1000 / 86400 := by omega
+  generalize hD : timeFromYearAsDays y + A + (d - 1) = day at *
+  -- the year
+  have hA0 : 0 ≤ A := by
+    have := mdays_mono (isLeap y) ⟨1, by omega⟩ ⟨m.toNat, by omega⟩ (by simp) (by simp; omega)
+    simp only [mdays_first] at this; rw [hA] at this; exact this
+  have hB13 : B ≤ daysInYear y := by
+    have := mdays_mono (isLeap y) ⟨m.toNat + 1, by omega⟩ ⟨13, by omega⟩ (by simp) (by simp; omega)
+    simp only [mdays_last] at this; rw [hB] at this
+    unfold isLeap at this
+    rcases daysInYear_cases y with e | e <;> rw [e] at this ⊢ <;> simp at this <;> omega
+  have hlen := daysInYear_eq y hy
+  have htf := tfy_eq_start y
+  have hr : 0 ≤ day + 719528 := by
+    have hs0 : 0 ≤ start y := by
+      by_cases e : y = 0
+      · rw [e, start_zero]; exact Int.le_refl _
+      · have := start_strict_mono (y := 0) (z := y) (by omega)
+        rw [start_zero] at this; omega
+    omega
+  have hb := year_bracket day (day + 719528) rfl hr
+  have hY : yearFromDay day = y := bracket_unique hb ⟨by omega, by omega⟩
+  -- the month
+  have hyd1 : day - timeFromYearAsDays y < (if isLeap y then 366 else 365) := by
+    unfold isLeap
+    rcases daysInYear_cases y with e | e <;> rw [e] at hB13 ⊢ <;> simp <;> omega
+  have hm' := monthOf_spec (isLeap y) (day - timeFromYearAsDays y) (by omega) hyd1
+  have hM : monthOf (isLeap y) (day - timeFromYearAsDays y) = m :=
+    month_unique (isLeap y) (day - timeFromYearAsDays y) _ m ⟨hm'.1, hm'.2.1⟩ hm ⟨hm'.2.2.1, hm'.2.2.2⟩
+      ⟨by rw [hA]; omega, by rw [hB]; omega⟩
+  have hw := weekday_spec t day hday
+  have hc : calcF t = Fields.mk (yearFromDay day) (monthOf (isLeap (yearFromDay day)) (day - timeFromYearAsDays (yearFromDay day)))
+      (day - timeFromYearAsDays (yearFromDay day) - mdays (isLeap (yearFromDay day))
+        (monthOf (isLeap (yearFromDay day)) (day - timeFromYearAsDays (yearFromDay day))).toNat + 1)
+      (t / 1000 % 86400 / 3600) (t / 1000 % 86400 % 3600 / 60) (t / 1000 % 86400 % 60) (calcF t).weekDay := by
+    simp only [calcF, ← hday]
+  rw [hc, hY, hM, hA, hw]
+  congr 1 <;> omega
+
+
+theorem tmod_lit (a b : Int) : Int.tmod a b = if 0 ≤ a then a % b else -((-a) % b) := by
+  by_cases h : 0 ≤ a
+  · rw [if_pos h, Int.tmod_eq_emod_of_nonneg h]
+  · rw [if_neg h]
+    have e : Int.tmod a b = - (Int.tmod (-a) b) := by rw [Int.neg_tmod]; omega
+    rw [e, Int.tmod_eq_emod_of_nonneg (by omega)]
 
 end AslProofs.Date
